@@ -332,7 +332,7 @@ def feature_args(h):
     return ["--features", h.features] if h.features else []
 
 
-def run_harness(h, overlay, tdir, logdir, extra=None, tag="", cap_gb=None):
+def run_harness(h, overlay, tdir, logdir, extra=None, tag="", cap_gb=None, timeout=None):
     log = os.path.join(logdir, h.name + tag + ".log")
     cmd = ["cargo", "kani", "--harness", h.qual, "--exact", "-Z", "stubbing", "--target-dir", tdir] + feature_args(h) + (extra or [])
     if h.checks == "rust":
@@ -343,7 +343,7 @@ def run_harness(h, overlay, tdir, logdir, extra=None, tag="", cap_gb=None):
         cmd += ["--cbmc-args"] + h.cbmc.split(",")
     t0 = time.time()
     # the rlimit applies to cargo/kani-compiler/cbmc alike; rustc needs address space too
-    rc, to = run_cmd(cmd, overlay, log, h.timeout, cap_gb or int(os.environ.get("VERIF_CAP_GB", "0")) or max(h.mem, 12))  # address-space cap (virtual); the scheduler budgets h.mem
+    rc, to = run_cmd(cmd, overlay, log, timeout or h.timeout, cap_gb or int(os.environ.get("VERIF_CAP_GB", "0")) or max(h.mem, 12))  # address-space cap (virtual); the scheduler budgets h.mem
     wall = time.time() - t0
     text = open(log, errors="replace").read()
     if to:
@@ -435,7 +435,8 @@ def playback(h, logdir):
     overlay = getattr(h, "perfile_overlay", None) or os.path.join(root, "ind")
     tdir = os.path.join(root, "target_pb")
     # (extracting the trace makes the Kani driver itself allocate a lot: a generous address-space cap for this one run)
-    r = run_harness(h, overlay, tdir, logdir, extra=["-Z", "concrete-playback", "--concrete-playback=print"], tag=".cex", cap_gb=max(40, h.mem))
+    r = run_harness(h, overlay, tdir, logdir, extra=["-Z", "concrete-playback", "--concrete-playback=print"], tag=".cex", cap_gb=max(40, h.mem),
+                    timeout=max(3600, 3 * h.timeout))  # one solver call per failed check and per cover: several times the plain run
     text = open(r["log"], errors="replace").read()
     tests = PB_RE.findall(text)
     if not tests and h.kind == "should_panic":
